@@ -7,3 +7,23 @@ chk("C16", "proof",
     "Effect census over the resolved program: no mutable/interior-mutable/thread-local static, no interior mutability in any local of a function reachable from the entry points, no unsafe, no ambient-state callee (env, fs, io, time, thread, atomics, hash randomness, addresses), owned-in/owned-out entry points; thorough tier repeats it in all 31 feature configurations and censuses the statics of the dependency crates. With these facts Rust's aliasing rules give purity for every history and schedule.",
     "trusted: Rust type system (safe code), determinism of std/libm functions, dependency bodies (only their statics are censused)",
     "effect / ownership census over items, MIR locals and resolved callees (custom rustc driver)", "DESIGN.md 5/C16")
+chk("C03", "proof",
+    "Ok implies the whole stripped input was one expression: proved from (a) the Eof gate in each parse(), (b) error discipline (every Result of a parser call is ?-propagated or returned, tokenizer None becomes Err), (c) the argument-list/arity/bracket tables equal the reference grammar for every documented function, (d) the vocabulary equals the availability matrix in both directions, obtained by interpreting the extracted lexer decision model on every surface symbol and on foreign probes.",
+    "trusted: recursive-descent schema argument; the converse (well-formed => Ok) is shown per production only",
+    "THIR table extraction + abstract interpretation of the extracted lexer model + structural error-discipline rule", "DESIGN.md 5/C03")
+chk("C12", "proof",
+    "Implicit multiplication is a purely syntactic property of three tables: trigger set of implicit_multiply (checked in both directions), level at which the right factor is parsed, node shape, and the exact set of hook call sites/callers. All are extracted from THIR and compared with the reference.",
+    "trusted: precedence-climbing schema (C04); literal-followed-by-literal is left unconstrained (statement neither grants nor forbids it)",
+    "THIR table extraction, call-site census and call-graph caller rule", "DESIGN.md 5/C12")
+chk("C13", "proof",
+    "Whitespace: dataflow rule that the parser sees only split_whitespace().collect() of the input and the original has no other use. Aliases: every synonym class maps to one token with the whole name consumed (lexer model interpreted on each keyword, so arm order and shadowing are covered). Notations: bracket/function, mod/%, pow/^, superscript/^N, prefix +, redundant brackets build identical nodes (relational checks between extracted table entries).",
+    "trusted: std split_whitespace/collect semantics (exactly the White_Space code points)",
+    "THIR dataflow rule + relational comparison of extracted parser/lexer table entries", "DESIGN.md 5/C13")
+chk("C14", "proof",
+    "Three-hop identity flow of the placeholder (entry point -> Parser::new -> field -> leaf built by the `@` arm) through identity steps only, the leaf arm of eval is the identity, the field is never written after construction, `@` is a primary with the loosest category. Bit-identity for NaN/-0/inf, variant and scale follow from identity flow.",
+    "trusted: moves/copies/Clone and Option::unwrap_or* on Some(v) are identities",
+    "provenance (identity-flow) rule over THIR + field-write census", "DESIGN.md 5/C14")
+chk("C20", "proof",
+    "Compositionality by structural induction; premises decided: every use of a child in every eval arm is the argument of the recursive eval call (lists: only measured/iterated, elements passed to eval), no arm pattern looks inside a child, eval builds no tree, round brackets are the identity wrapper, previous_token is never read, token dispatch is unguarded. Determinism is C16.",
+    "trusted: the induction argument in DESIGN.md; determinism from C16",
+    "provenance rule over every child use in the THIR of eval + read census", "DESIGN.md 5/C20")
